@@ -198,7 +198,7 @@ def design_runs(work, out, names, workers=6):
 # the shared pool: rich worlds x random histories / schedules, validated by several properties' own monitors
 
 # monitors whose antecedents make sense on the pool's worlds (the others are specific to their check's scenario construction)
-POOL_OK = {"ReplaceOwn", "ReprieveUnmarks", "DirValid", "HandleContentOK", "Immutable", "DurableFirst", "ReadOnlyFirst", "Mode0444", "NoErr", "PruneOK", "ReadMarks", "FreshOnWrite",
+POOL_OK = {"MaintPrunes", "ReplaceOwn", "ReprieveUnmarks", "DirValid", "HandleContentOK", "Immutable", "DurableFirst", "ReadOnlyFirst", "Mode0444", "NoErr", "PruneOK", "ReadMarks", "FreshOnWrite",
            "SeqMapOK", "OneCopy", "UnexplainedLoss", "SrcConsumed", "ROUntouched", "Confined", "OutsideUntouched", "RemovalOK", "DotFilesUntouched",
            "YoungTempKept", "StaleGone", "HandleModeOK", "PutNeverReplaces", "DebrisConfined", "NoLocks", "TouchMarksFirstOnly", "NoLaterLookups"}
 
@@ -377,12 +377,16 @@ def check_C01(work):
     for fr in fronts(100000, ("plain", "stack")):
         for wop, calls in ((P("k"), [("link", "EPERM"), ("link", "EXDEV"), ("link", "EMLINK"), ("link", "EIO")]),
                            (S("k"), [("rename", "EXDEV"), ("rename", "EIO"), ("rename", "EPERM")])) + \
-                          (((E("k2"), [("link", "EPERM"), ("link", "EIO")]),) if fr[0] == "stack" else ()):
+                          (((E("k2"), [("link", "EPERM"), ("link", "EIO"), ("write", "SHORT")]),
+                            # promotion of the read-only copy of k: short copies / short writes must be completed, not published
+                            (E("k"), [("copy", "SHORT"), ("write", "SHORT"), ("copy", "EIO")])) if fr[0] == "stack" else ()):
             for call, er in calls:
                 key = wop["key"]
                 progs = ([dict(wop, chunks=2)], [G(key), G(key)])
                 cj = conc_job("C01-flt-%s-%d" % (fr[0], nflt), "%s:%s(%s:%s)||get+get" % (fr[0], wop["api"], call, er), fr, progs, bursts(Q(40, 200)))
                 cj["stages"][-1]["parts"][0]["fault_all"] = {"call": call, "errno": er, "count": 1}
+                if er == "SHORT":
+                    cj["cfg"]["unmodelled"] = True       # Kismet.tla has no short transfers: these runs are judged by the monitors only
                 jobs.append(cj)
                 nflt += 1
     mons = ["DirValid", "HandleContentOK", "Immutable"]
@@ -483,8 +487,10 @@ def seq_job(jid, fam, cache, prog, world=(), draw=NEVER, cfg_extra=None, roots=N
 def c16_names(rng, thorough):
     fixed = ["", ".", "..", ".x", ".kismet_temp", ".kismet_0000", "/abs", "/", "\\x", "\\", "a", "a.b", "a/b", "a/../b", "x/../../escaped",
              "x/../../../escaped2", "a/", "a/.", "..a", "a\\b", "\u00e9", "a b", "a" * 255, "a" * 256, "a//b", "-x", "~", "a\nb", "a/b/c",
-             "a/./b", "x/..", "a\u0000b", "\u00e9/\u00e9", "k/.kismet_temp", "a/.hidden"]
-    alpha = ["a", ".", "/", "\\", "\u00e9"]
+             "a/./b", "x/..", "a\u0000b", "\u00e9/\u00e9", "k/.kismet_temp", "a/.hidden",
+             # blanks are ordinary bytes of a name: never trimmed, never decoded
+             " ", "  ", " .x", "\t.x", " .kismet_temp", "a ", " a", "a\t", "\na", " /a", "a%2fb", "a%2e", "A", "\u00c9"]
+    alpha = ["a", ".", "/", "\\", "\u00e9", " "]
     out = list(fixed)
     if thorough:
         for n in range(1, 5):
@@ -691,6 +697,12 @@ def check_C07(work):
         o["hash"], o["sec"] = "1", "2"
         jobs.append(seq_job("C07-shard-%d" % i, "sharded-set", sharded("W", 2, total), [o], world=world, draw=ALWAYS,
                             cfg_extra={"seq": True, "shardcap": max(1, (total + 1) // 2)}, shard_script=[1] * 8))
+        # the same population in the OTHER shard: a fresh handle (all load estimates zero) writes to shard 0, its trigger fires, and the
+        # maintenance of "a random other shard" must be a full Second Chance pass over shard 1, whatever the handle believes about its load
+        world2 = population_ops("W/.kismet_0001", files, strays) + [op("mkdir", path="@TOP@/W/.kismet_0000/.kismet_temp"),
+                                                                     op("mkfile", path="@TOP@/W/.kismet_0001/.kismet_temp/stale", raw="x", mt_ago=9000.0, at_ago=9000.0)]
+        jobs.append(seq_job("C07-othershard-%d" % i, "sharded-set:other-shard", sharded("W", 2, total), [o, dict(o, key="znew2")], world=world2, draw=ALWAYS,
+                            cfg_extra={"seq": True, "shardcap": max(1, (total + 1) // 2)}, shard_script=[1] * 8))
     # (c) an outside party removes one entry while the maintenance runs ("things do disappear from caches"): every call of the
     # maintenance in turn is the moment of the removal; the outcome must still be the planner's on what was listed (PruneOKV) --
     # in particular every OTHER reprieved entry still moves to the back of the queue
@@ -704,9 +716,9 @@ def check_C07(work):
                 cfg = {"roots": [root("W", "plain", "w")], "front": "plain", "cap": cap, "seq": True}
                 jobs.append(job("C07-vanish-%d-%s-%d" % (cap, victim, at), [seq_stage(part(9, plain("SRC/none"), world, NEVER)), stg], cfg, rnd(1, seed()),
                                 fam="plain-set:entry-vanishes"))
-    mons = ["PruneOK", "RemovalOK", "DirValid"]
+    mons = ["PruneOK", "MaintPrunes", "RemovalOK", "DirValid"]
     st = trace_check(work, out, jobs, mons, tag="c07")
-    st = add_pool(work, out, st, ["PruneOK"], want=('seq',))
+    st = add_pool(work, out, st, ["PruneOK", "MaintPrunes"], want=('seq',))
     design = design_runs(work, out, Q(["MCsc4"], ["MCsc4", "MCsc5"]))
     cov = coverage_mc(st, design, "directory populations (files x mtime rank incl. ties x read mark {atime<mtime, =, >} x stray subdirectory x capacity 0..n+1), "
                       "exhaustive up to n=%d (quick: n<=2 exhaustive + seeded half of n=3) plus seeded n<=12; maintenance entered through raw_cache::prune, "
@@ -1101,7 +1113,7 @@ def disagree(pt):
     return len(set(vals)) > 1 or (pt["pop"] in ("A", "B") and vals and pt["pop"] != vals[0])
 
 
-def matrix_check(work, prop, mons, checkers, frac, rule, extra_jobs=(), umasks=(None,), level="model_checking", always=None):
+def matrix_check(work, prop, mons, checkers, frac, rule, extra_jobs=(), umasks=(None,), level="model_checking", always=None, extra_checks=()):
     t0 = time.time()
     out = Outcome(prop)
     rng = random.Random(seed())
@@ -1119,6 +1131,15 @@ def matrix_check(work, prop, mons, checkers, frac, rule, extra_jobs=(), umasks=(
             jobs.append(stack_job("%s-ro-%d" % (prop, i), pt, i, ro_only=True))
     jobs += list(extra_jobs)
     st = trace_check(work, out, jobs, mons, tag=prop.lower())
+    for n_, (js_, ms_) in enumerate(extra_checks):
+        # families with their own monitors (their worlds are not judged by the matrix's relation)
+        st2 = trace_check(work, out, list(js_), list(ms_), tag="%sx%d" % (prop.lower(), n_))
+        for k_ in ("runs", "events", "states", "violations", "fsmodel_mismatches"):
+            st[k_] = st.get(k_, 0) + st2.get(k_, 0)
+        for k_, v_ in (st2.get("mstats") or {}).items():
+            st.setdefault("mstats", {})
+            st["mstats"][k_] = st["mstats"].get(k_, 0) + v_
+        jobs += list(js_)
     pm = [m for m in mons if m in POOL_OK]
     if pm:
         st = add_pool(work, out, st, pm)
@@ -1148,9 +1169,47 @@ def check_C13(work):
                         "result / hit kind shown to the judge / post content of the write cache judged by Stack!ObservedOK (quick: seeded 35%, thorough: all)")
 
 
+def c14_tail_jobs():
+    """Copies that differ from the first one ONLY by a missing tail (one byte, a chunk) or an extra byte: every byte-comparing checker must
+    report it, for every operation that compares."""
+    jobs = []
+    hk = dict(hash="1", sec="2")
+    full = dict(key="k", val="A", chunks=2, w=0, mode=0o444, mt_ago=500.0, at_ago=620.0)
+    n = 0
+    for ck in ("eq", "panic"):
+        for chop in (1, 4096, 8191):
+            for shape in ("w-full:r-short", "w-short:r-full", "ro3:last-short", "ro2:first-short", "populate-short"):
+                world, readers, wcache = [], [], None
+                if shape.startswith("w-"):
+                    wcache = plain("W", 100)
+                    readers = [plain("R1")]
+                    world.append(dict(op("mkfile", path="@TOP@/W/k", **full), **({"chop": chop} if shape == "w-short:r-full" else {})))
+                    world.append(dict(op("mkfile", path="@TOP@/R1/k", **full), **({"chop": chop} if shape == "w-full:r-short" else {})))
+                    prog = [op("get", "k", **hk), dict(op("ensure", "k", **hk), populate="notfound"), dict(op("gou", "k", **hk), judge="accept", populate="notfound")]
+                elif shape.startswith("ro"):
+                    nlev = 3 if shape.startswith("ro3") else 2
+                    readers = [plain("R%d" % (i + 1)) for i in range(nlev)]
+                    short = nlev - 1 if shape.endswith("last-short") else 0
+                    for i in range(nlev):
+                        world.append(dict(op("mkfile", path="@TOP@/R%d/k" % (i + 1), **full), **({"chop": chop} if i == short else {})))
+                    prog = [op("get", "k", **hk), dict(op("ensure", "k", **hk), populate="notfound")]
+                else:
+                    wcache = plain("W", 100)
+                    readers = [plain("R1")]
+                    world.append(op("mkfile", path="@TOP@/W/k", **full))
+                    prog = [dict(op("ensure", "k", "A", chunks=2, w=0, **hk), popchop=chop), dict(op("gou", "k", "A", chunks=2, w=0, **hk), judge="accept", popchop=chop)]
+                cache = stack(wcache, readers, ck)
+                roots = ([root("W", "plain", "w")] if wcache else []) + [root(r["dir"].replace("@TOP@/", ""), "plain", "ro") for r in readers]
+                cfg = {"roots": roots, "front": "stack", "expectfail": True, "checker": ck, "autosync": True, "cap": 100}
+                n += 1
+                jobs.append(job("C14-tail-%d" % n, [seq_stage(part(9, plain("SRC/none"), world, NEVER)), seq_stage(part(1, cache, prog, NEVER))], cfg, None,
+                                fam="tail:%s:chop=%d:ck=%s" % (shape, chop, ck)))
+    return jobs
+
+
 def check_C14(work):
-    return matrix_check(work, "C14", ["StackOK", "NoLaterLookups", "ROUntouched", "DirValid"], ("eq", "panic", "log", "none", "cleared", "cleared-panic"), Q(0.10, 1.0),
-                        "the matrix of Stack.tla with checker {none, byte-equality, panicking, logging}: success iff all copies (and the populated value when "
+    return matrix_check(work, "C14", ["StackOK", "NoLaterLookups", "ROUntouched", "DirValid"], extra_checks=[(c14_tail_jobs(), ["ExpectFail", "ROUntouched"])], checkers=("eq", "panic", "log", "none", "cleared", "cleared-panic"), frac=Q(0.10, 1.0),
+                        rule="the matrix of Stack.tla with checker {none, byte-equality, panicking, logging}: success iff all copies (and the populated value when "
                         "compared) are identical; the logging checker's comparison graph must span and connect the copies Stack!Expected(..).cmp; "
                         "quick: seeded 12% plus every point whose copies disagree under the equality checkers", always=lambda pt: (pt["checker"] in ("eq", "log") and disagree(pt) and hash(str(pt)) % 3 == 0) or
                         (pt["checker"].startswith("cleared") and disagree(pt) and len([x for x in pt["rs"] if x != "none"]) >= 2 and pt["op"] in ("get", "ensure")))
@@ -1191,8 +1250,30 @@ def c15_fault_jobs():
     return jobs
 
 
+def c15_big_jobs():
+    """Promotion of LARGE read-only hits (a copy, never a link that would share the inode with the write cache): the read-only copy keeps its
+    stamps, mode and link count while the promoted entry is stamped, re-moded and later re-stamped by maintenance."""
+    jobs = []
+    hk = dict(hash="1", sec="2")
+    for wname, wr in (("stack", plain("W", 2)), ("stacksh", sharded("W", 2, 4))):
+        for rkind in ("plain", "sharded"):
+            rspec = plain("R1") if rkind == "plain" else {"kind": "sharded", "dir": "@TOP@/R1", "shards": 2}
+            d = "R1" if rkind == "plain" else shard_dir("R1", shard_ids(1, 2, 2)[0])
+            world = [op("mkfile", path="@TOP@/%s/kr" % d, key="kr", val="big", chunks=1, w=0, mode=0o444, mt_ago=600.0, at_ago=720.0),
+                     op("mkfile", path="@TOP@/%s/k2" % d, key="k2", val="big2", chunks=2, w=0, mode=0o644, mt_ago=600.0, at_ago=720.0)]
+            prog = [op("ensure", "kr", **hk), dict(op("gou", "k2", **hk), judge="promote"), op("get", "kr", **hk),
+                    op("set", "x1", "v", srcdir="@TOP@/SRC", **hk), op("put", "x2", "v", srcdir="@TOP@/SRC", **hk), op("set", "x3", "v", srcdir="@TOP@/SRC", **hk),
+                    op("touch", "kr", **hk), op("get", "k2", **hk)]
+            cache = stack(wr, [rspec], "none")
+            j = seq_job("C15-big-%s-%s" % (wname, rkind), "%s:%s:large-hit-promotion" % (wname, rkind), cache, prog, world=world, draw=ALWAYS,
+                        shard_script=[1, 0] * 10)
+            j["chunk"] = 140000
+            jobs.append(j)
+    return jobs
+
+
 def check_C15(work):
-    return matrix_check(work, "C15", ["ROUntouched", "StackOK"], ("none", "eq"), Q(0.15, 0.6), extra_jobs=c15_fault_jobs(), rule=
+    return matrix_check(work, "C15", ["ROUntouched", "StackOK"], ("none", "eq"), Q(0.15, 0.6), extra_jobs=c15_fault_jobs() + c15_big_jobs(), rule=
                         "the matrix of Stack.tla (incl. missing read-only directories, promotion, replacement, misses) and ReadOnlyCache alone: no mutating call "
                         "may target a read-only root and snapshots of those roots are equal up to atime after every step (ROUntouched)")
 
@@ -1552,6 +1633,40 @@ def check_C12(work):
                         roots=[root(root_, "sharded", "w")])
             j["snap"] = "none"
             jobs.append(j)
+    # a long-lived handle whose load estimates of BOTH candidate shards exceed the shard capacity (full shards, rewritten again and again) still
+    # probes both candidates: the entry lives in its secondary shard (planted there), nothing is ever evicted (the shards are exactly full)
+    for n in (2, 3, 7):
+        pick, byprimary = {}, {}
+        for h in range(1, 4000):
+            ids = shard_ids(h, h + 1, n)
+            pick.setdefault(ids, (h, h + 1))
+            byprimary.setdefault(ids[0], []).append((h, h + 1))
+        (a0, b0), (vh, vs) = next(((ids, hs) for ids, hs in pick.items() if ids[0] != ids[1]))
+        root_ = "L%d" % n
+        cap_shard = 4
+        cache = sharded(root_, n, cap_shard * n)
+        mk = lambda h_, s_: dict(hash=str(h_), sec=str(s_), hl=list(h_.to_bytes(8, "little")), sl=list(s_.to_bytes(8, "little")), n=n, root=root_)
+        # keys whose primary shard is a0 / b0 (any secondary)
+        in_a = byprimary.get(a0, [])[:cap_shard]
+        in_b = byprimary.get(b0, [])[:cap_shard - 1]
+        if len(in_a) < cap_shard or len(in_b) < cap_shard - 1:
+            continue
+        world = [op("mkdir", path="@TOP@/%s" % shard_dir(root_, i)) for i in range(n)]
+        world.append(op("mkfile", path="@TOP@/%s/victim" % shard_dir(root_, b0), key="victim", val="v", chunks=1, w=0, mode=0o444, mt_ago=100.0, at_ago=90.0))
+        prog = []
+        for i, (h_, s_) in enumerate(in_a):
+            prog.append(dict(op("set", "a%d" % i, "x"), h=0, **mk(h_, s_)))
+        for i, (h_, s_) in enumerate(in_b):
+            prog.append(dict(op("set", "b%d" % i, "x"), h=0, **mk(h_, s_)))
+        for r in range(Q(8, 40)):
+            prog.append(dict(op("set", "a0", "x%d" % r), h=0, **mk(*in_a[0])))
+            prog.append(dict(op("set", "b0", "y%d" % r), h=0, **mk(*in_b[0])))
+            prog.append(dict(op("get", "victim"), h=0, expect="hit", **mk(vh, vs)))
+            prog.append(dict(op("touch", "victim"), h=0, expect="hit", **mk(vh, vs)))
+        j = seq_job("C12-longlived-%d" % n, "n=%d:long-lived-handle" % n, cache, prog, world=world, roots=[root(root_, "sharded", "w")],
+                    draw=str(rng.getrandbits(64) | 1), shard_script=[rng.randrange(n) for _ in range(64)])
+        j["snap"] = "none"
+        jobs.append(j)
     tfiles = run_tracer(work, jobs, tag="c12")
     res = validate_traces(work, "TraceShard", tfiles, {"monitors": []}, tag="c12")
     judged = 0
@@ -1629,6 +1744,21 @@ def check_C04(work):
                     cj["stages"][-1]["parts"][0]["fault_all"] = {"call": call, "errno": er, "count": 1}
                     jobs.append(cj)
                     k_ += 1
+    # ... and while ANOTHER WRITER publishes the same (absent) key: a put whose link fails (no hard links here, ...) may fail or insert,
+    # but never overwrites what a put that already returned has stored
+    for call, er in (("link", "EPERM"), ("link", "EOPNOTSUPP"), ("link", "ENOSYS"), ("link", "EXDEV"), ("link", "EIO")):
+        for a_, b_ in ((["P"], ["P", "G", "G"]), (["P", "G"], ["P", "G"]), (["P"], ["S", "G", "G"])):
+            progs = ([dict(ops2[x]) for x in a_], [dict(ops2[x]) for x in b_])
+            fam = "plain:%s(%s:%s)||%s" % ("".join(a_), call, er, "".join(b_))
+            cj = conc_job("C04-flt-%d" % k_, fam, plainf, progs, bursts(Q(50, 200)), cfg_extra={"key": k})
+            cj["stages"][-1]["parts"][0]["fault_all"] = {"call": call, "errno": er, "count": 1}
+            jobs.append(cj)
+            k_ += 1
+    for i_, (a_, b_) in enumerate([([E(k)], [E(k), G(k)]), ([E(k)], [P(k), G(k)])]):
+        for er in ("EPERM", "EIO"):
+            cj = conc_job("C04-flt-ens-%d-%s" % (i_, er), "stack:%s(link:%s)||%s" % (prog_name(a_), er, prog_name(b_)), stackf, (a_, b_), bursts(Q(60, 200)), cfg_extra={"key": k})
+            cj["stages"][-1]["parts"][0]["fault_all"] = {"call": "link", "errno": er, "count": 1}
+            jobs.append(cj)
     # step form of the register refinement on the same executions
     st0 = trace_check(work, out, jobs, ["PutNeverReplaces", "DirValid"], tag="c04")
     st0 = add_pool(work, out, st0, ["PutNeverReplaces"])
@@ -1857,7 +1987,8 @@ def check_C20(work):
             ops += [("ensure-hit", op("ensure", k, **H)), ("ensure-miss", op("ensure", "k9", **H)), ("put_tf", op("put_tf", "k8", **H))]
         return [dict(o, h=hidx, grp=g, size=sizes[hidx]) for g, o in ops]
 
-    fronts_ = [("plain", 0, "none"), ("sharded", 0, "none"), ("stack1", 0, "none"), ("stack2", 1, "none"), ("stack3", 2, "none"), ("stack3eq", 2, "eq")]
+    fronts_ = [("plain", 0, "none"), ("sharded", 0, "none"), ("stack1", 0, "none"), ("stack2", 1, "none"), ("stack3", 2, "none"), ("stack3eq", 2, "eq"),
+               ("stack5eq", 4, "eq"), ("stack7log", 6, "log")]
     for fname, nreaders, ck in fronts_:
         world, handles, prog = [], [], []
         for i, sz in enumerate(sizes):
